@@ -105,6 +105,66 @@ class DoomedGen:
         where = ['iso', 'joliet', 'udf'].index('joliet')
         return _finish(op, 'joliet-name-longer-than-64:%s:%s' % (kind, '+'.join(ns for ns in ('iso', 'joliet', 'udf') if ns in op)), True, 'name-rule-in-2nd-namespace' if 'iso' in op else 'name-rule')
 
+    def udf_too_long(self):
+        """A UDF identifier that does not fit its one-byte length field (254 bytes of d-string payload)."""
+        m, r = self.m, self.r
+        if not m.has('udf'):
+            return None
+        kind = r.choice(('add_fp', 'add_dir'))
+        op = _fresh(self.g, kind, nss=[ns for ns in ('iso', 'joliet', 'udf') if m.has(ns) and (ns == 'udf' or r.random() < 0.6)])
+        if op is None or 'udf' not in op:
+            return None
+        parent, _ = M.split(op['udf'])
+        if r.random() < 0.5:
+            nm = ''.join(r.choice(G.RRCHARS.replace('.', '')) for _ in range(r.choice((255, 256, 300))))
+        else:
+            nm = ''.join(r.choice(G.UNI_BMP) for _ in range(r.choice((128, 129, 200))))
+        op['udf'] = M.join(parent, nm)
+        return _finish(op, 'udf-name-too-long:%s:%s' % (kind, '+'.join(ns for ns in ('iso', 'joliet', 'udf') if ns in op)), True,
+                       'name-rule-in-later-namespace' if len([ns for ns in ('iso', 'joliet') if ns in op]) else 'name-rule')
+
+    def rr_too_long(self):
+        """A Rock Ridge name or symlink target whose overflow does not fit one continuation area."""
+        m, r = self.m, self.r
+        if not m.rr:
+            return None
+        kind = r.choice(('add_fp', 'add_dir', 'add_symlink'))
+        n = r.choice((2100, 2500, 4000))
+        if kind == 'add_symlink':
+            op = self.g.g_add_symlink()
+            if op is None or 'iso' not in op:
+                return None
+            if r.random() < 0.5:
+                op['target'] = '/'.join('c' * 200 for _ in range(n // 200))
+            else:
+                op['rr'] = ''.join(r.choice(G.RRCHARS.replace('.', '')) for _ in range(n))
+        else:
+            op = _fresh(self.g, kind, nss=['iso'] + [ns for ns in ('joliet', 'udf') if m.has(ns) and r.random() < 0.5])
+            if op is None or 'iso' not in op:
+                return None
+            op['rr'] = ''.join(r.choice(G.RRCHARS.replace('.', '')) for _ in range(n))
+        return _finish(op, 'rr-overflows-continuation-area:%s' % kind, True, 'name-rule')
+
+    def symlink_other_namespace_taken(self):
+        """add_symlink whose Joliet (or UDF) name exists already while the ISO9660 name is free."""
+        m, r = self.m, self.r
+        op = self.g.g_add_symlink()
+        if op is None:
+            return None
+        cands = [ns for ns in ('joliet', 'udf') if m.has(ns) and any(True for _ in m.iter_ns(ns))]
+        if not cands:
+            return None
+        ns = r.choice(cands)
+        p, n = r.choice(list(m.iter_ns(ns)))
+        if ns == 'joliet':
+            if 'iso' not in op:
+                return None
+            op['joliet'] = p
+        else:
+            op['udf'] = p
+            op.setdefault('udf_target', 'x/y')
+        return _finish(op, 'duplicate:add_symlink:%s-existing-%s:later-namespace' % (ns, n.kind), False, 'duplicate-in-namespace-2')
+
     def depth(self):
         m, r = self.m, self.r
         if m.rr or m.cfg['level'] == 4:
@@ -342,7 +402,8 @@ class DoomedGen:
         op['progress_raise_at'] = r.choice((1, 2, 3, 5, 10))
         return _finish(op, 'io-fault:progress_cb-raises-in-write_fp', True, 'io-fault')
 
-    GENS = ('bad_iso_file_name', 'bad_iso_dir_name', 'joliet_too_long', 'depth', 'duplicate', 'duplicate', 'duplicate', 'missing_parent',
+    GENS = ('bad_iso_file_name', 'bad_iso_dir_name', 'joliet_too_long', 'udf_too_long', 'rr_too_long', 'symlink_other_namespace_taken',
+            'depth', 'duplicate', 'duplicate', 'duplicate', 'missing_parent',
             'missing_parent', 'wrong_type_rm', 'wrong_type_rm', 'eltorito_protected', 'wrong_extension', 'bad_boot', 'bad_hybrid', 'state',
             'io_fault_boot', 'io_fault_write')
 
